@@ -18,6 +18,9 @@
 (*             were invoked is never told; it only ends when its client goes away).                         *)
 (*             "SignalPanicsDebugThread" (the select branch for the LSP shutdown signal breaks out without  *)
 (*             completing the selected operation: crossbeam panics, the debug thread dies).                  *)
+(*             "BusyStepBlocksJoin" (a session thread busy inside a step that never returns cannot be joined;  *)
+(*             latent like JoinBlockedInAccept). "RendezvousSignal" is HYPOTHETICAL (capacity-0 handler channel): *)
+(*             it shows that Terminates constrains the shutdown handshake in the busy state.                       *)
 (* With a deviation removed the model is the candidate repair: no unique ownership needed to join the IO   *)
 (* threads; accept is woken when the flag is set.                                                          *)
 EXTENDS ShutdownOps
@@ -35,7 +38,7 @@ Init == s = S0 /\ lspc = "init" /\ dapc = "none" /\ goal \in {"shutdown_exit", "
 Srv(sn) == s' = sn /\ UNCHANGED <<lspc, dapc, goal>>
 (* LSP client *)
 CInit     == lspc = "init" /\ s.m = "init" /\ s' = MInit(s) /\ lspc' = "open" /\ UNCHANGED <<dapc, goal>>
-CShutdown == lspc = "open" /\ goal # "close" /\ s.m = "serve" /\ s' = MShutdown(s) /\ lspc' = "sent_shutdown" /\ UNCHANGED <<dapc, goal>>
+CShutdown == lspc = "open" /\ goal # "close" /\ MShutdownEn(s, Deviations) /\ s' = MShutdown(s) /\ lspc' = "sent_shutdown" /\ UNCHANGED <<dapc, goal>>
 CExit     == lspc = "sent_shutdown" /\ goal = "shutdown_exit" /\ s.m = "wait_exit" /\ s' = MExit(s) /\ lspc' = "sent_exit" /\ UNCHANGED <<dapc, goal>>
 CClose    == /\ \/ lspc = "open" /\ goal = "close" /\ s.m = "serve" /\ s' = MLeft(s)
                 \/ lspc = "sent_shutdown" /\ goal = "shutdown_close" /\ s.m = "wait_exit" /\ s' = MErr(s)
@@ -45,6 +48,8 @@ CConnect  == dapc = "none" /\ s.d = "accept" /\ s.exit = -1 /\ lspc \in {"open"}
 CLaunch   == dapc = "connected" /\ s.d = "session" /\ s.mach = "none" /\ s' = [s EXCEPT !.mach = "running"] /\ UNCHANGED <<lspc, dapc, goal>>
 CPause    == dapc = "connected" /\ s.d = "session" /\ s.mach = "running" /\ s' = [s EXCEPT !.mach = "paused"] /\ UNCHANGED <<lspc, dapc, goal>>
 CGone     == dapc = "connected" /\ s.d = "session" /\ s' = [DEndSess(s) EXCEPT !.mach = "none"] /\ dapc' = "gone" /\ UNCHANGED <<lspc, goal>>
+CStepBusy == dapc = "connected" /\ s.d = "session" /\ s.mach = "paused" /\ s' = DBusy(s) /\ UNCHANGED <<lspc, dapc, goal>>
+CGoneBusy == dapc = "connected" /\ s.d = "busy" /\ dapc' = "gone" /\ UNCHANGED <<s, lspc, goal>>       \* nobody is reading the socket
 
 (* main thread *)
 Drain   == s.m = "drain" /\ Srv(MLeft(s))             \* the reader thread stops after `exit`: the receiver closes
@@ -58,11 +63,12 @@ Reg     == DRegEn(s) /\ s.exit = -1 /\ Srv(DReg(s))
 Sig     == s.d = "session" /\ (s.sig \/ (s.flag /\ "SessionIgnoresFlag" \notin Deviations)) /\ s.exit = -1 /\ Srv(DSig(s, Deviations))
 Drop    == s.d = "ending" /\ s.exit = -1 /\ Srv(DDrop(s))
 Wake    == s.d = "accept" /\ s.flag /\ "JoinBlockedInAccept" \notin Deviations /\ s.exit = -1 /\ Srv(DWake(s))
+BusyWake == s.d = "busy" /\ s.flag /\ "BusyStepBlocksJoin" \notin Deviations /\ s.exit = -1 /\ Srv(DBusyWake(s))
 
 MainNext == Drain \/ Unwrap \/ SetFlag \/ Join
-DbgNext  == Top \/ Bind \/ Reg \/ Sig \/ Drop \/ Wake
+DbgNext  == Top \/ Bind \/ Reg \/ Sig \/ Drop \/ Wake \/ BusyWake
 LspNext  == CInit \/ CShutdown \/ CExit \/ CClose
-DapNext  == CConnect \/ CLaunch \/ CPause \/ CGone
+DapNext  == CConnect \/ CLaunch \/ CPause \/ CGone \/ CStepBusy \/ CGoneBusy
 Next == MainNext \/ DbgNext \/ LspNext \/ DapNext
 (* every step of the server threads that is not blocked is eventually taken; the LSP client carries out its goal; *)
 (* the DAP client owes nothing (an attached, idle debugger must not keep the process alive)                        *)
@@ -81,5 +87,6 @@ TypeOK == s.refs \in 1..5 /\ s.exit \in {-1, 0, 1, 101}
 DebugThreadAlive == s.d # "dead"
 (* vacuity *)
 NeverPaused == s.mach # "paused"
+NeverBusyAtShutdown == ~(s.d = "busy" /\ s.m = "wait_exit")
 NeverJoined == s.m # "done"
 ================================================================================
